@@ -524,3 +524,50 @@ func VHRingStep() {
 	}
 	s.compare("after operation")
 }
+
+// VHRingBig: Move and Unlink with counts far beyond the ring's length, both signs - 1023, 1024,
+// 1025, 2047, 2048, 2049, 4097, 100003 - and Len / Do on rings of 1..9 and of RB (300)
+// elements, so that any reduction of the count (modulo the length, lap counting, threshold-based
+// fast paths) is passed; compared with container/ring executed from source.
+func VHRingBig() {
+	s := &c06r{}
+	rn := 1 + vChoose("rlen", 9)
+	if vChoose("long", 2) == 1 {
+		rn = vParam("RB")
+	}
+	ra, rb := s.mk(rn, "rv")
+	counts := []int{1023, 1024, 1025, 2047, 2048, 2049, 4097, 100003}
+	n := counts[vChoose("count", len(counts))]
+	if vChoose("neg", 2) == 1 {
+		n = -n
+	}
+	switch vChoose("op", 3) {
+	case 0:
+		vAssert(s.idxA(ra.Move(n)) == s.idxB(rb.Move(n)), "big counts: Move(n) reaches the same element")
+	case 1:
+		ua, ub := ra.Unlink(n), rb.Unlink(n)
+		vAssert(s.idxA(ua) == s.idxB(ub), "big counts: Unlink(n) returns the same element")
+		if ua != nil && ub != nil {
+			vAssert(ua.Len() == ub.Len(), "big counts: Unlink(n) removes the same number of elements")
+		}
+	case 2:
+		vAssert(ra.Len() == rb.Len() && ra.Len() == rn, "big ring: Len")
+		cnt := 0
+		ra.Do(func(int) { cnt++ })
+		vAssert(cnt == rn, "big ring: Do visits every element once")
+		oa, ob := s.mk(rn+1, "ov")
+		vAssert(s.idxA(ra.Link(oa)) == s.idxB(rb.Link(ob)), "big ring: Link returns the same element")
+		vAssert(ra.Len() == 2*rn+1 && rb.Len() == 2*rn+1, "big ring: Len after Link")
+	}
+	if rn <= 9 {
+		s.compare("big counts: after the operation")
+	} else {
+		vAssert(ra.Len() == rb.Len(), "big ring: same Len afterwards")
+		pa, pb := ra, rb
+		for k := 0; k < ra.Len()+2; k++ {
+			vAssert(s.idxA(pa) == s.idxB(pb), "big ring: same Next chain afterwards")
+			pa, pb = pa.Next(), pb.Next()
+		}
+	}
+	vCover("ring big done")
+}
